@@ -588,6 +588,9 @@ class RaggedArray(IndexableArray, np.lib.mixins.NDArrayOperatorsMixin):
         assert side in ["left", "right"]
 
         self.ravel()
+        if self.size == 0:
+            # no cells (no rows, or only empty rows): there is no longest row and nothing to gather
+            return np.empty((len(self), 0), dtype=self.dtype)
         ends = self._shape.ends
         starts = self._shape.starts
         max_chars = np.max(ends-starts)
